@@ -226,3 +226,30 @@ Proof.
   repeat match goal with X : (_ =? _) = true |- _ => apply Z.eqb_eq in X end.
   repeat match goal with X : zlist_eqb _ _ = true |- _ => apply zlist_eqb_eq in X end. auto.
 Qed.
+
+(** * 4. message-history differential records (driver (c): histories of MsgEthereumTx, each on its
+    own cache-context branch through the EVM ante chain + Keeper.EthereumTx, vs go-ethereum
+    core.ApplyMessage on the same sequence).  After EVERY message: the same verdict (rejected before
+    execution / executed), for executed messages the same gas, VM error class, return data and logs,
+    every log carrying the hash of the message that emitted it, and the same committed state. *)
+Record msgs_trace := {
+  mt_init_n : list arow; mt_init_g : list arow;   (* the world before the first message, both sides *)
+  mt_msgs : list (prog_obs * prog_obs * bool)     (* Nibiru, go-ethereum, "all logs carry this message's tx hash" *)
+}.
+
+Definition Pmsgs (c : msgs_trace) : Prop :=
+  map norm_row (mt_init_n c) = map norm_row (mt_init_g c) /\
+  Forall (fun x : prog_obs * prog_obs * bool => let '(n, g, h) := x in Pprog n g /\ h = true) (mt_msgs c).
+
+Definition Pmsgs_b (c : msgs_trace) : bool :=
+  list_eqb row_eqb (map norm_row (mt_init_n c)) (map norm_row (mt_init_g c)) &&
+  forallb (fun x : prog_obs * prog_obs * bool => let '(n, g, h) := x in Pprog_b n g && h) (mt_msgs c).
+
+Lemma Pmsgs_b_sound c : Pmsgs_b c = true -> Pmsgs c.
+Proof.
+  unfold Pmsgs_b, Pmsgs. intro H. apply andb_true_iff in H as [H1 H2].
+  split; [apply (list_eqb_eq _ row_eqb_eq), H1|].
+  induction (mt_msgs c) as [|[[n g] h] l IH]; [constructor|].
+  simpl in H2. apply andb_true_iff in H2 as [H2 H3]. apply andb_true_iff in H2 as [H2 H4].
+  constructor; [|apply IH, H3]. split; [apply Pprog_b_sound, H2|exact H4].
+Qed.
